@@ -134,6 +134,8 @@ fn exec_inner(tri: &mut Box<dyn Tri>, t: &[String]) -> Option<String> {
         "circv" | "circe" => tri.shape(op, b(1)?, b(2)?, b(3)?, 0),
         "bary" => tri.bary(b(1)?, b(2)?),
         "nnw" => tri.nnw(b(1)?, b(2)?),
+        "baryi" => tri.baryi(b(1)?, b(2)?),
+        "nnwi" => tri.nnwi(b(1)?, b(2)?),
         "vor" => tri.vor(),
         "side" => {
             let e = u(1)?;
